@@ -505,11 +505,12 @@ func capRep(k qkeys, level int) [2]int64 {
 	return k.nodes[len(k.nodes)-1]
 }
 
-// hierarchical capacity: two LEAF queues of equal priority in DIFFERENT subtrees
-// (different ancestor chains) whose records just below the common ancestor tie
-func capSubtreeTie(x in6) bool {
+// hierarchical capacity: the pairs of LEAF queues of equal priority in DIFFERENT
+// subtrees (different ancestor chains) whose records just below the common ancestor tie
+func capSubtreeTies(x in6) map[[2]int]bool {
+	out := map[[2]int]bool{}
 	if x.pk != 7 || x.en != 2 {
-		return false
+		return out
 	}
 	for i, a := range x.keys {
 		for j, b := range x.keys {
@@ -518,17 +519,18 @@ func capSubtreeTie(x in6) bool {
 			}
 			lv := capQueueLevel(a.anc, b.anc)
 			if capRep(a, lv) == capRep(b, lv) {
-				return true
+				out[[2]int{i, j}] = true
 			}
 		}
 	}
-	return false
+	return out
 }
 
-// hdrf: two queues of DIFFERENT hierarchy depth whose paths tie down to the shorter depth
-func hdrfDepthTie(x in6) bool {
+// hdrf: the pairs of queues of DIFFERENT hierarchy depth whose paths tie down to the shorter depth
+func hdrfDepthTies(x in6) map[[2]int]bool {
+	out := map[[2]int]bool{}
 	if x.pk != 8 || x.en != 2 {
-		return false
+		return out
 	}
 	for i, a := range x.keys {
 		for j, b := range x.keys {
@@ -540,24 +542,77 @@ func hdrfDepthTie(x in6) bool {
 				tie = tie && a.nodes[d] == b.nodes[d]
 			}
 			if tie {
-				return true
+				out[[2]int{i, j}] = true
 			}
 		}
 	}
-	return false
+	return out
 }
 
+// the triples on which a matrix violates negative transitivity:
+// lt(a,d) and neither lt(a,b) nor lt(b,d)
+func negtransViolations(n int, m []int64) [][3]int {
+	out := [][3]int{}
+	for a := 0; a < n; a++ {
+		for b := 0; b < n; b++ {
+			for d := 0; d < n; d++ {
+				if m[a*n+d] != 0 && m[a*n+b] == 0 && m[b*n+d] == 0 {
+					out = append(out, [3]int{a, b, d})
+				}
+			}
+		}
+	}
+	return out
+}
+
+// the triples of different elements on which a matrix violates transitivity
+func transViolations(n int, m []int64) [][3]int {
+	out := [][3]int{}
+	for a := 0; a < n; a++ {
+		for b := 0; b < n; b++ {
+			for d := 0; d < n; d++ {
+				if a != b && b != d && a != d && m[a*n+b] != 0 && m[b*n+d] != 0 && m[a*n+d] == 0 {
+					out = append(out, [3]int{a, b, d})
+				}
+			}
+		}
+	}
+	return out
+}
+
+// every violating triple contains a pair that exhibits the mechanism
+func explainedBy(viol [][3]int, ties map[[2]int]bool) bool {
+	for _, t := range viol {
+		ok := false
+		for _, p := range [][2]int{{t[0], t[1]}, {t[1], t[2]}, {t[0], t[2]}} {
+			ok = ok || ties[p] || ties[[2]int{p[1], p[0]}]
+		}
+		if !ok {
+			return false
+		}
+	}
+	return true
+}
+
+// Law 117 (asymmetry, totality, pop order where the answers are a strict weak
+// order, victim antisymmetry) is NEVER signed.  Law 118 (negative transitivity of
+// the queue order, transitivity of the victim order) carries the signature of a
+// finding only if EVERY violating triple of the implementation's own matrices
+// contains a pair of queues exhibiting that finding's mechanism.
 func laws6(in, got []int64, law func(lsel int, lin []int64, sig string)) {
 	x := dec6(in)
 	law(116, cat(in, got), "")
+	law(117, cat(in, got), "")
+	n := len(x.keys)
+	m, vm := got[1:1+n*n], got[2+n*n:2+2*n*n]
+	viol := append(negtransViolations(n, m), transViolations(n, vm)...)
 	sig := ""
-	switch {
-	case capSubtreeTie(x):
+	if ct := capSubtreeTies(x); len(ct) > 0 && explainedBy(viol, ct) {
 		sig = sigCapacityHier
-	case hdrfDepthTie(x):
+	} else if ht := hdrfDepthTies(x); len(ht) > 0 && explainedBy(viol, ht) {
 		sig = sigHdrfDepth
 	}
-	law(117, cat(in, got), sig)
+	law(118, cat(in, got), sig)
 }
 
 // the victims queue over the REAL hierarchical capacity plugin: one running task
